@@ -962,6 +962,15 @@ def run_all(sess, ctx=None):
     ctx = ctx or Ctx(sess)
     hist = new_hist(sess)
     for st in sess.steps:
+        if "reentrant" in ctx.flags:
+            # a transaction may contain nested marketplace calls made by a hostile contract during dispatch: the
+            # per-operation monitors (one call, its own messages) do not apply; what is judged at the transaction
+            # boundary is the backing of the escrow, the well-formedness of the records and all-or-nothing;
+            # everything else is judged by the correspondence with model/Reentry.v
+            m_c01(ctx, st)
+            m_refused_no_effect(ctx, st)
+            m_c12(ctx, st)
+            continue
         if st["op"]["t"] == "bank_send" and st["op"]["to"] == ctx.pool and st["outcome"] == "ok":
             for d, a in st["op"]["coins"]:
                 hist["pool_in"][d] += int(a)
